@@ -91,6 +91,85 @@ def is_attr_call(call, suffix):
     return ast.unparse(call.func).endswith(suffix)
 
 
+
+# ----------------------------------------------------------------------------- normalisation (robustness of tie G)
+def _is_self_attr_chain(node):
+    while isinstance(node, ast.Attribute):
+        node = node.value
+    return isinstance(node, ast.Name) and node.id == "self"
+
+
+class _IfElseToIfExp(ast.NodeTransformer):
+    """`if c: x = a` / `else: x = b`  ->  `x = a if c else b`"""
+
+    def visit_If(self, node):
+        self.generic_visit(node)
+        if len(node.body) == 1 and len(node.orelse) == 1 and all(
+                isinstance(b, ast.Assign) and len(b.targets) == 1 for b in (node.body[0], node.orelse[0])) \
+                and ast.dump(node.body[0].targets[0]) == ast.dump(node.orelse[0].targets[0]):
+            new = ast.Assign(targets=node.body[0].targets,
+                             value=ast.IfExp(test=node.test, body=node.body[0].value, orelse=node.orelse[0].value))
+            return ast.copy_location(new, node)
+        return node
+
+
+def normalize(fn):
+    """a copy of the function in which
+      * an if/else assigning one and the same target in both branches is a conditional expression,
+      * a local that is assigned exactly once, at the top level of the function, from a pure `self.a.b` attribute
+        chain is replaced by that chain (alias inlined),
+      * the remaining locals are renamed `_v0, _v1, …` in order of first appearance (parameters keep their names)."""
+    import copy
+    fn = _IfElseToIfExp().visit(copy.deepcopy(fn))
+    ast.fix_missing_locations(fn)
+    params = {a.arg for a in fn.args.args + fn.args.kwonlyargs + fn.args.posonlyargs}
+    if fn.args.vararg:
+        params.add(fn.args.vararg.arg)
+    if fn.args.kwarg:
+        params.add(fn.args.kwarg.arg)
+    stores = {}
+    for n in ast.walk(fn):
+        if isinstance(n, ast.Name) and isinstance(n.ctx, (ast.Store, ast.Del)):
+            stores[n.id] = stores.get(n.id, 0) + 1
+    alias = {}
+    for st in list(fn.body):
+        if isinstance(st, ast.Assign) and len(st.targets) == 1 and isinstance(st.targets[0], ast.Name) \
+                and stores.get(st.targets[0].id) == 1 and st.targets[0].id not in params \
+                and isinstance(st.value, ast.Attribute) and _is_self_attr_chain(st.value):
+            alias[st.targets[0].id] = st.value
+            fn.body.remove(st)
+
+    class Inline(ast.NodeTransformer):
+        def visit_Name(self, node):
+            if node.id in alias and isinstance(node.ctx, ast.Load):
+                import copy as _c
+                return _c.deepcopy(alias[node.id])
+            return node
+    fn = Inline().visit(fn)
+    order = []
+    for n in sorted((n for n in ast.walk(fn) if isinstance(n, ast.Name)),
+                    key=lambda n: (getattr(n, "lineno", 0), getattr(n, "col_offset", 0))):
+        if n.id in stores and n.id not in params and n.id not in alias and n.id not in order:
+            order.append(n.id)
+    ren = {name: "_v%d" % k for k, name in enumerate(order)}
+    for n in ast.walk(fn):
+        if isinstance(n, ast.Name) and n.id in ren:
+            n.id = ren[n.id]
+    ast.fix_missing_locations(fn)
+    return fn
+
+
+def init_attr_defs(cls):
+    """{attribute name: source of the value `__init__` assigns to self.<attribute>}"""
+    out = {}
+    init = find_func(cls, "__init__")
+    for n in ast.walk(init):
+        if isinstance(n, ast.Assign) and len(n.targets) == 1 and isinstance(n.targets[0], ast.Attribute) \
+                and ast.unparse(n.targets[0].value) == "self":
+            out[n.targets[0].attr] = ast.unparse(n.value)
+    return out
+
+
 # ----------------------------------------------------------------------------- Handler.emit
 def shape_emit(tree):
     fn = find_func(tree, "emit", cls="Handler")
@@ -269,40 +348,47 @@ def arm_of(stmts):
 
 
 def shape_worker(tree):
-    fn = find_func(tree, "_queued_writer", cls="Handler")
+    fn = normalize(find_func(tree, "_queued_writer", cls="Handler"))
     loops = [s for s in fn.body if isinstance(s, ast.While)]
     if len(loops) != 1 or ast.unparse(loops[0].test) != "True" or loops[0].orelse:
         raise Unsupported("_queued_writer: no single `while True` loop")
     if fn.body[-1] is not loops[0]:
         raise Unsupported("_queued_writer: statements after the loop")
+    for st in fn.body[:-1]:
+        # before the loop: nothing but initialisation of locals with constants
+        if not (isinstance(st, ast.Assign) and isinstance(st.value, ast.Constant)):
+            raise Unsupported("_queued_writer: statement before the loop: " + ast.unparse(st))
     lb = loops[0].body
     if len(lb) != 4:
         raise Unsupported("_queued_writer: loop body has %d statements" % len(lb))
     t = lb[0]
-    if not (isinstance(t, ast.Try) and len(t.body) == 1 and ast.unparse(t.body[0]) == "message = queue.get()"
+    if not (isinstance(t, ast.Try) and len(t.body) == 1 and isinstance(t.body[0], ast.Assign)
+            and len(t.body[0].targets) == 1 and isinstance(t.body[0].targets[0], ast.Name)
+            and ast.unparse(t.body[0].value) == "self._queue.get()"
             and len(t.handlers) == 1 and not t.finalbody and not t.orelse):
         raise Unsupported("_queued_writer: get arm changed")
+    item = t.body[0].targets[0].id          # the local that holds what came out of the queue
     caught_get = caught_set(t.handlers[0].type)
     hb = t.handlers[0].body
-    reports_get = any(ast.unparse(c.func) == "self._error_interceptor.print" for s in hb for c in calls_in(s))
+    reports_get = any(ast.unparse(c) == "self._error_interceptor.print(None)" for s in hb for c in calls_in(s))
     arm_get = arm_of(hb)
     if arm_get is None:
         raise Unsupported("_queued_writer: get arm falls through with a stale message")
-    if ast.unparse(lb[1]) != "if message is None:\n    break":
+    if ast.unparse(lb[1]) != "if %s is None:\n    break" % item:
         raise Unsupported("_queued_writer: sentinel test changed")
-    if ast.unparse(lb[2]) != "if message is True:\n    self._confirmation_event.set()\n    continue":
+    if ast.unparse(lb[2]) != "if %s is True:\n    self._confirmation_event.set()\n    continue" % item:
         raise Unsupported("_queued_writer: confirmation branch changed")
     w = lb[3]
-    if not (isinstance(w, ast.With) and ast.unparse(w.items[0].context_expr) == "lock" and len(w.body) == 1
-            and isinstance(w.body[0], ast.Try)):
+    if not (isinstance(w, ast.With) and ast.unparse(w.items[0].context_expr) == "self._queue_lock"
+            and len(w.body) == 1 and isinstance(w.body[0], ast.Try)):
         raise Unsupported("_queued_writer: write section changed")
     t2 = w.body[0]
-    if not (len(t2.body) == 1 and ast.unparse(t2.body[0]) == "self._sink.write(message)" and len(t2.handlers) == 1
+    if not (len(t2.body) == 1 and ast.unparse(t2.body[0]) == "self._sink.write(%s)" % item and len(t2.handlers) == 1
             and not t2.finalbody and not t2.orelse):
         raise Unsupported("_queued_writer: write arm changed")
     caught_write = caught_set(t2.handlers[0].type)
     hb2 = t2.handlers[0].body
-    reports_write = any(ast.unparse(c) == "self._error_interceptor.print(message.record)"
+    reports_write = any(ast.unparse(c) == "self._error_interceptor.print(%s.record)" % item
                         for s in hb2 for c in calls_in(s))
     arm_write = arm_of(hb2) or "continue_"   # falling off the end of the loop body = next iteration
     if caught_get != caught_write:
@@ -314,27 +400,48 @@ def shape_worker(tree):
 
 # ----------------------------------------------------------------------------- Logger.remove / _log
 def shape_remove(tree):
+    """is the reduced registry (and min_level) published before `stop()` is called on the popped handler?"""
     fn = find_func(tree, "remove", cls="Logger")
-    loops = [n for n in ast.walk(fn) if isinstance(n, ast.For) and ast.unparse(n.iter) == "handler_ids"]
-    if len(loops) != 1:
+    loops = [n for n in ast.walk(fn) if isinstance(n, ast.For) and any(
+        isinstance(c, ast.Call) and ast.unparse(c.func).endswith(".stop") for c in ast.walk(n))]
+    if len(loops) != 1 or not isinstance(loops[0].target, ast.Name):
         raise Unsupported("Logger.remove: handler loop not found")
-    body = loops[0].body
-    src = [ast.unparse(s) for s in body]
-    try:
-        i_pop = src.index("handler = handlers.pop(handler_id)")
-        i_pub = src.index("self._core.handlers = handlers")
-        i_min = src.index("self._core.min_level = min(levelnos, default=float('inf'))")
-        i_lv = src.index("levelnos = (h.levelno for h in handlers.values())")
-        i_stop = src.index("handler.stop()")
-    except ValueError:
-        raise Unsupported("Logger.remove: loop body changed: %r" % (src,))
-    if not (i_pop < i_lv < i_min and i_pop < i_pub):
+    loop = loops[0]
+    key = loop.target.id
+    body = loop.body
+    if any(isinstance(s, (ast.Try, ast.With, ast.If, ast.For, ast.While)) for s in body):
+        raise Unsupported("Logger.remove: control flow inside the loop")
+    idx = {}
+    reg = popped = None
+    for k, st in enumerate(body):
+        src = ast.unparse(st)
+        if isinstance(st, ast.Assign) and len(st.targets) == 1:
+            tgt, val = ast.unparse(st.targets[0]), ast.unparse(st.value)
+            if val == "self._core.handlers.copy()" and isinstance(st.targets[0], ast.Name):
+                reg, idx["copy"] = tgt, k
+            elif reg and val == "%s.pop(%s)" % (reg, key) and isinstance(st.targets[0], ast.Name):
+                popped, idx["pop"] = tgt, k
+            elif tgt == "self._core.handlers":
+                if val != reg:
+                    raise Unsupported("Logger.remove: publishes " + val)
+                idx["pub"] = k
+            elif tgt == "self._core.min_level":
+                if not val.startswith("min("):
+                    raise Unsupported("Logger.remove: min_level = " + val)
+                idx["min"] = k
+        elif isinstance(st, ast.Expr) and isinstance(st.value, ast.Call) and popped \
+                and src == "%s.stop()" % popped:
+            idx["stop"] = k
+    missing = [x for x in ("copy", "pop", "pub", "min", "stop") if x not in idx]
+    if missing:
+        raise Unsupported("Logger.remove: not found in the loop: %s" % missing)
+    if not (idx["copy"] < idx["pop"] < idx["pub"] and idx["pop"] < idx["min"]):
         raise Unsupported("Logger.remove: registry computed in an unexpected order")
-    if src[0] != "handlers = self._core.handlers.copy()":
-        raise Unsupported("Logger.remove: registry not copied first")
-    if any(isinstance(s, (ast.Try, ast.With)) for s in body):
-        raise Unsupported("Logger.remove: try/with inside the loop")
-    return i_pub < i_stop and i_min < i_stop
+    # the levels min_level is computed from must be those of the REDUCED registry
+    between = " ".join(ast.unparse(s) for s in body[idx["pop"]:idx["min"] + 1])
+    if "%s.values()" % reg not in between:
+        raise Unsupported("Logger.remove: min_level not computed from the reduced registry")
+    return idx["pub"] < idx["stop"] and idx["min"] < idx["stop"]
 
 
 def shape_log(tree):
@@ -407,16 +514,46 @@ def shape_print(tree):
     writes = [ast.unparse(s) for s in t.body if not isinstance(s, ast.Try)]
     if not (writes and writes[0].startswith("sys.stderr.write('--- Logging error in Loguru Handler #%d ---\\n' % self._handler_id")):
         raise Unsupported("ErrorInterceptor.print: header line changed")
-    if not any(w.startswith("sys.stderr.write('Record was: %s\\n' % record_repr") for w in writes):
+    rec_line = [x for x in t.body if isinstance(x, ast.Expr) and isinstance(x.value, ast.Call)
+                and ast.unparse(x.value.func) == "sys.stderr.write" and len(x.value.args) == 1
+                and isinstance(x.value.args[0], ast.BinOp) and isinstance(x.value.args[0].op, ast.Mod)
+                and isinstance(x.value.args[0].left, ast.Constant) and x.value.args[0].left.value == "Record was: %s\n"
+                and isinstance(x.value.args[0].right, ast.Name)]
+    if len(rec_line) != 1:
         raise Unsupported("ErrorInterceptor.print: record line changed")
+    repr_name = rec_line[0].value.args[0].right.id
     inner = [s for s in t.body if isinstance(s, ast.Try)]
     guards = False
-    if len(inner) == 1:
+    cls = find_class(tree, "ErrorInterceptor")
+    helper_calls = [x for x in t.body if isinstance(x, ast.Assign) and len(x.targets) == 1
+                    and ast.unparse(x.targets[0]) == repr_name and isinstance(x.value, ast.Call)
+                    and isinstance(x.value.func, ast.Attribute)
+                    and ast.unparse(x.value.func.value) in ("self", "ErrorInterceptor", "type(self)")
+                    and [ast.unparse(a) for a in x.value.args] == ["record"] and not x.value.keywords]
+    if len(inner) == 0 and len(helper_calls) == 1:
+        # the rendering of the record moved into a private helper of the class: follow it one level deep
+        hf = find_func(cls, helper_calls[0].value.func.attr)
+        hp = [a.arg for a in hf.args.args if a.arg not in ("self", "cls")]
+        hbody = strip_doc(hf.body)
+        if len(hp) == 1 and len(hbody) == 1 and isinstance(hbody[0], ast.Try):
+            it = hbody[0]
+            if [ast.unparse(x) for x in it.body] == ["return str(%s)" % hp[0]] and len(it.handlers) == 1 \
+                    and len(caught_set(it.handlers[0].type)) == len(ALL) and not it.finalbody and not it.orelse \
+                    and len(it.handlers[0].body) == 1 and isinstance(it.handlers[0].body[0], ast.Return) \
+                    and isinstance(it.handlers[0].body[0].value, ast.Constant):
+                guards = True
+            else:
+                raise Unsupported("ErrorInterceptor.print: helper %s has an unexpected try" % hf.name)
+        elif len(hp) == 1 and [ast.unparse(x) for x in hbody] == ["return str(%s)" % hp[0]]:
+            guards = False
+        else:
+            raise Unsupported("ErrorInterceptor.print: helper %s not understood" % hf.name)
+    elif len(inner) == 1:
         it = inner[0]
-        if [ast.unparse(s) for s in it.body] == ["record_repr = str(record)"] and len(it.handlers) == 1 \
+        if [ast.unparse(s) for s in it.body] == ["%s = str(record)" % repr_name] and len(it.handlers) == 1 \
                 and len(caught_set(it.handlers[0].type)) == len(ALL) and not it.finalbody and not it.orelse \
                 and len(it.handlers[0].body) == 1 and isinstance(it.handlers[0].body[0], ast.Assign) \
-                and ast.unparse(it.handlers[0].body[0].targets[0]) == "record_repr":
+                and ast.unparse(it.handlers[0].body[0].targets[0]) == repr_name:
             guards = True
         else:
             raise Unsupported("ErrorInterceptor.print: inner try changed")
@@ -430,13 +567,22 @@ def shape_print(tree):
 
 # ----------------------------------------------------------------------------- sinks / stop
 def shape_stream(tree):
-    fn = find_func(tree, "write", cls="StreamSink")
-    src = [ast.unparse(s) for s in strip_doc(fn.body)]
-    if src == ["self._stream.write(message)", "if self._flushable:\n    self._stream.flush()"]:
-        return True
-    if src == ["if self._flushable:\n    self._stream.flush()", "self._stream.write(message)"]:
-        return False
-    raise Unsupported("StreamSink.write changed: %r" % (src,))
+    """`StreamSink.write`: is the text written before the stream is flushed?  (the flag attribute may have any
+    name: it is identified by what `__init__` stores in it)"""
+    cls = find_class(tree, "StreamSink")
+    fn = find_func(cls, "write")
+    body = strip_doc(fn.body)
+    defs = init_attr_defs(cls)
+    w = [k for k, x in enumerate(body) if ast.unparse(x) == "self._stream.write(message)"]
+    f = []
+    for k, x in enumerate(body):
+        if isinstance(x, ast.If) and not x.orelse and [ast.unparse(b) for b in x.body] == ["self._stream.flush()"] \
+                and isinstance(x.test, ast.Attribute) and ast.unparse(x.test.value) == "self" \
+                and defs.get(x.test.attr, "").replace('"', "'") == "callable(getattr(stream, 'flush', None))":
+            f.append(k)
+    if len(body) != 2 or len(w) != 1 or len(f) != 1:
+        raise Unsupported("StreamSink.write changed: %r" % ([ast.unparse(x) for x in body],))
+    return w[0] < f[0]
 
 
 def shape_stop(tree):
@@ -462,16 +608,28 @@ def shape_stop(tree):
 
 def shape_tasks(tree):
     """`Handler.tasks_to_complete`: a non-enqueue handler collects its tasks under `_protected_lock()`"""
-    fn = find_func(tree, "tasks_to_complete", cls="Handler")
-    src = [ast.unparse(s) for s in strip_doc(fn.body)]
-    want_tail = ["with lock:\n    return self._sink.tasks_to_complete()"]
-    if src[-1:] != want_tail:
-        raise Unsupported("Handler.tasks_to_complete changed: %r" % (src,))
-    if "lock = self._queue_lock if self._enqueue else self._protected_lock()" in src:
+    fn = normalize(find_func(tree, "tasks_to_complete", cls="Handler"))
+    body = strip_doc(fn.body)
+    w = body[-1]
+    if not (isinstance(w, ast.With) and len(w.items) == 1
+            and [ast.unparse(x) for x in w.body] == ["return self._sink.tasks_to_complete()"]):
+        raise Unsupported("Handler.tasks_to_complete changed: %r" % ([ast.unparse(x) for x in body],))
+    ctx = w.items[0].context_expr
+    if isinstance(ctx, ast.Name):
+        vals = [x.value for x in body[:-1] if isinstance(x, ast.Assign) and len(x.targets) == 1
+                and ast.unparse(x.targets[0]) == ctx.id]
+        if len(vals) != 1:
+            raise Unsupported("Handler.tasks_to_complete: lock variable assigned %d times" % len(vals))
+        ctx = vals[0]
+    if not (isinstance(ctx, ast.IfExp) and ast.unparse(ctx.test) == "self._enqueue"
+            and ast.unparse(ctx.body) == "self._queue_lock"):
+        raise Unsupported("Handler.tasks_to_complete: lock choice changed: " + ast.unparse(ctx))
+    other = ast.unparse(ctx.orelse)
+    if other == "self._protected_lock()":
         return True
-    if "lock = self._queue_lock if self._enqueue else self._lock" in src:
+    if other == "self._lock":
         return False
-    raise Unsupported("Handler.tasks_to_complete: lock choice changed: %r" % (src,))
+    raise Unsupported("Handler.tasks_to_complete: lock of a non-enqueue handler is " + other)
 
 
 def shape_async_write(tree):
